@@ -24,6 +24,12 @@ def level_sums(x, ids, dpv, user):
 def do_case(ctx, inp):
     a, prios = inp["ast"], inp["prios"]
     o = build(a)
+    if inp.get("via") == "deepcopy":
+        # a configurator is a configurator however the caller came by it: a deep copy, or one unpacked from its base64 string
+        import copy as _copy
+        o = _copy.deepcopy(o)
+    elif inp.get("via") == "b64":
+        o = pg.from_b64(o.to_b64())
     t = snap(o)
     has_default = any(n["k"] == "node" and n.get("default") for n in subs(t))
     ctx.case(inp, nontrivial=has_default or any(prios), tags=tags_of(t) | ({"has-default"} if has_default else set())
@@ -132,4 +138,7 @@ def run(ctx):
                 prios.append({x: rng.choice([B, B + 1, -(B + 1), B + 2, 3]) for x in rng.sample(names, k)})
             else:
                 prios.append({x: rng.choice([1, 1, -1, 2, -2, 3]) for x in rng.sample(names, k)})
-        do_case(ctx, {"ast": a, "prios": prios})
+        case = {"ast": a, "prios": prios}
+        if rng.random() < 0.25:
+            case["via"] = rng.choice(["deepcopy", "b64"]); ctx.tags["configurator-obtained-via-" + case["via"]] += 1
+        do_case(ctx, case)
